@@ -190,10 +190,15 @@ CHECKS = {
          "spmatrix and matrix objects run in forked children (an interpreter crash is an observation) and TLC checks at every step that every "
          "sparse object is a valid CCS structure (pointers, strictly increasing in-range row indices, consistent lengths), that it densifies "
          "to the model's image, the kind, identity relations, and the pinned patterns (triplet construction with duplicates summed, entry "
-         "count kept by unary and scalar operations).",
-    design_ref="DESIGN.md section 4 C16",
-    note="Integer-valued data. base.gemv/gemm/syrk/symv/axpy with sparse operands, V assignment and size change are not in this check (C17/C19 "
-         "drivers cover the products). Calibrated clauses are marked in the spec.",
+         "count kept by unary and scalar operations). The mixed sparse/dense products base.gemv / symv / gemm / syrk / axpy (every combination of "
+         "sparse and dense operands, partial=True, all flags, scalars, offsets and sub-blocks for gemv/symv, zero dimensions, mismatching shapes) are "
+         "specified in Blas.tla (SPGEMV, SPSYMV, SPGEMM, SPSYRK, SPAXPY) on dense images: random calls run in crash-isolated children, TLC evaluates "
+         "Run(call), and the accept/reject decision, every cell of every operand, the sparsity pattern (inputs unchanged; output unchanged under "
+         "partial=True) and the validity of the resulting CCS structure are compared.",
+    design_ref="DESIGN.md section 4 C16 and II.4",
+    note="Integer-valued data. V assignment and size change are not in the program generator. base.gemv/symv with a sparse A and a block that wraps "
+         "around the rows of A (outside the documented requirement) are 'unspecified'; for base.syrk with a sparse C and partial=False only the uplo "
+         "triangle is compared. Calibrated clauses are marked in the spec.",
     technique="TLA+ reference model over dense images; TLC trace validation (CCSValid + dense image at every step) of random programs run in crash-isolated children"),
  "C17": dict(
     category="model_checking",
@@ -233,7 +238,8 @@ CHECKS = {
          "beyond 10^4 clamped - the buffers have < 10^3 cells) and the decision and the unchanged buffers are compared: a call accepted although its "
          "footprint exceeds a buffer is a violation even if no guard page was hit. (2) the interpreter survives: the generators of C15 (dense programs), "
          "C16 (sparse programs), C18 (LAPACK instances and free matrices) and C20 (buffer imports), LAPACK calls with huge integer arguments, and "
-         "constructors / indexing / slicing / sparse products / reshapes with huge integers. (3) every call raises a Python exception or returns.",
+         "constructors / indexing / slicing / sparse products / reshapes with huge integers, and the base.gemv/symv/gemm/syrk/axpy call generator of C16 "
+         "(sparse and dense operands, exact guard: no slack retry; an invalid CCS structure after a call is a violation). (3) every call raises a Python exception or returns.",
     design_ref="DESIGN.md section 4 C19",
     note="Only blocks allocated by the rebuilt modules are guarded. OPENBLAS_CORETYPE=Prescott and a 64-byte-slack retry keep the deliberate over-reads of "
          "the external OpenBLAS kernels from being reported (over-reads of <= 64 bytes are therefore left to the exact comparisons of C15-C18). The contents "
